@@ -136,9 +136,12 @@ func enumSpaces() []enumSpace {
 	g := hx.Gen() + ": "
 	if !stats.Thorough() && os.Getenv("VERIF_C20_QUICK_SPACE") == "small" {
 		// quick tier of the root-module job (its CleanTargetDir differs from v2's only in the manifest name)
-		return []enumSpace{{g + "trees depth<=2, <=2 entries/level, up to entry order", 2, 2, 1}}
+		return []enumSpace{{g + "trees depth<=2, <=2 entries/level, up to entry order", 2, 2, 1}, {g + "trees depth<=3, <=1 entry/level", 3, 1, 1}}
 	}
-	sp := []enumSpace{{g + "trees depth<=2, <=3 entries/level, up to entry order", 2, 3, dotStride()}}
+	sp := []enumSpace{
+		{g + "trees depth<=2, <=3 entries/level, up to entry order", 2, 3, dotStride()},
+		{g + "trees depth<=3, <=1 entry/level", 3, 1, 1},
+	}
 	if stats.Thorough() {
 		sp = append(sp, enumSpace{g + "trees depth<=3, <=2 entries/level, up to entry order", 3, 2, 1})
 	}
